@@ -573,3 +573,148 @@ func (g *Gen) TinyShapes() *Case {
 	c.tag("tiny_file")
 	return c
 }
+
+// WideSegment: two segments with 300 fields each (field ids cross 127/128 and
+// 255/256: one- and two-byte varints of the ids, caches keyed by a narrowed id),
+// every field with a term that has a location; every dictionary is opened, the
+// two are merged with a deletion (C01, C02, C03, C08, C18).
+func (g *Gen) WideSegment() *Case {
+	c := &Case{Family: "wide_segment"}
+	r := g.R
+	mk := func(prefix string, nd int) Batch {
+		var b Batch
+		for d := 0; d < nd; d++ {
+			doc := Doc{idField(fmt.Sprintf("%s%d", prefix, d), d%2 == 0)}
+			for f := 0; f < 300; f++ {
+				if (f+d)%3 == 0 && f != 126 && f != 127 && f != 255 && f != 256 {
+					continue // not every document carries every field
+				}
+				name := fmt.Sprintf("f%03d", f)
+				tm := Term{T: []byte(fmt.Sprintf("t%d", (f+d)%4)), Freq: 1 + (f+d)%2,
+					Locs: []Loc{{Pos: 1 + d, Start: f, End_: f + 1 + d}}}
+				fl := Field{N: name, Len: tm.Freq, Terms: []Term{tm}, DV: f%50 == 0}
+				if f%97 == 0 {
+					fl.St, fl.Val = true, []byte{byte(f), byte(d)}
+				}
+				doc = append(doc, fl)
+			}
+			b = append(b, doc)
+		}
+		return b
+	}
+	na, nb := 4+r.Intn(4), 3+r.Intn(3)
+	a, b := mk("a", na), mk("b", nb)
+	ops := []Op{{Code: OpBuild, CM: g.ChunkMode(), Batch: a}, {Code: OpBuild, CM: g.ChunkMode(), Batch: b},
+		{Code: OpObsAll, Slot: 0},
+		{Code: OpMerge, CM: g.ChunkMode(), Ins: []MergeIn{{Slot: 0, Drops: []uint64{uint64(r.Intn(na))}}, {Slot: 1, DropsNil: true}}},
+		{Code: OpObsAll, Slot: 2},
+		{Code: OpReload, Slot: 2, Kind: r.Intn(2)}, {Code: OpObsAll, Slot: 3},
+		{Code: OpDocsMatching, Slot: 3, Terms: []FT{{"f000", []byte("t0")}, {"f256", []byte("t1")}, {"f127", []byte("t3")}, {"_id", []byte("a1")}}},
+		{Code: OpStats, Slot: 3, F: "f256"}, {Code: OpStats, Slot: 3, F: "f000"}}
+	c.Ops = ops
+	c.tag("merge")
+	c.tag("drops_and_survivors")
+	c.tag("wide_field_list")
+	c.tag("merged")
+	return c
+}
+
+// RepeatedFieldBig: 520-700 documents that each carry the same field twice,
+// both instances with the same term: the term is seen twice as often as it has
+// documents, which must not influence the chunking (C01).
+func (g *Gen) RepeatedFieldBig() *Case {
+	c := &Case{Family: "repeated_field_big"}
+	r := g.R
+	n := 520 + r.Intn(180)
+	var b Batch
+	for d := 0; d < n; d++ {
+		inst := func(pos int) Field {
+			f := Field{N: "body", Len: 1, Terms: []Term{{T: []byte("x"), Freq: 1, Locs: []Loc{{Pos: pos, Start: pos, End_: pos + 1}}}}}
+			if r.Intn(4) == 0 {
+				f.Terms = append(f.Terms, Term{T: []byte("y"), Freq: 2})
+				f.Len += 2
+			}
+			return f
+		}
+		b = append(b, Doc{idField(fmt.Sprintf("r%d", d), false), inst(1), inst(2)})
+	}
+	c.Ops = []Op{{Code: OpBuild, CM: 1025, Batch: b}, {Code: OpObsAll, Slot: 0}, {Code: OpLayout, Slot: 0},
+		{Code: OpIter, Slot: 0, F: "body", T: []byte("x"), ExceptNil: true, Except: []uint64{}, Flags: [3]bool{true, true, true},
+			IterOps: []IterOp{{}, {}, {Adv: true, D: uint64(n / 2)}, {}, {Adv: true, D: uint64(n - 1)}, {}, {}}}}
+	c.tagBatch(b, 1025)
+	c.tag("repeated_field")
+	c.tag("multi_chunk")
+	return c
+}
+
+// LastInputDropped: a term without locations in two inputs; only one posting
+// survives, in the document that becomes number 0, and the last input that has
+// the term loses all its postings for it (the merger's 1-hit decision looks at
+// what the last input contributed) (C02, C05, C18).
+func (g *Gen) LastInputDropped() *Case {
+	c := &Case{Family: "last_input_dropped"}
+	r := g.R
+	doc := func(id string, terms ...string) Doc {
+		f := Field{N: "body"}
+		for _, t := range terms {
+			f.Terms = append(f.Terms, Term{T: []byte(t), Freq: 1})
+			f.Len++
+		}
+		return Doc{idField(id, r.Intn(2) == 0), f}
+	}
+	a := Batch{doc("a0", "x", "y"), doc("a1", "y")}
+	b := Batch{doc("b0", "x"), doc("b1", "z"), doc("b2", "x", "z")}
+	ops := []Op{{Code: OpBuild, CM: g.ChunkMode(), Batch: a}, {Code: OpBuild, CM: g.ChunkMode(), Batch: b},
+		{Code: OpMerge, CM: g.ChunkMode(), Ins: []MergeIn{{Slot: 0, Drops: []uint64{}}, {Slot: 1, Drops: []uint64{0, 2}}}}, // 2
+		{Code: OpObsAll, Slot: 2},
+		{Code: OpDocsMatching, Slot: 2, Terms: []FT{{"body", []byte("x")}}},
+		{Code: OpDocsMatching, Slot: 2, Terms: []FT{{"body", []byte("z")}, {"body", []byte("x")}}},
+		{Code: OpIter, Slot: 2, F: "body", T: []byte("x"), ExceptNil: true, Except: []uint64{}, Flags: [3]bool{true, true, true}, IterOps: []IterOp{{}, {}}},
+		{Code: OpMerge, CM: g.ChunkMode(), Ins: []MergeIn{{Slot: 2, DropsNil: true}}}, // 3: merged again
+		{Code: OpObsAll, Slot: 3},
+		{Code: OpReload, Slot: 3, Kind: r.Intn(2)},
+		{Code: OpDocsMatching, Slot: 4, Terms: []FT{{"body", []byte("x")}}},
+		{Code: OpLayout, Slot: 2}}
+	c.Ops = ops
+	c.tag("merge")
+	c.tag("merge_of_merge")
+	c.tag("drops_and_survivors")
+	c.tag("merged")
+	c.tag("last_input_contributes_nothing")
+	return c
+}
+
+// EmptyFieldName: a field whose name is the empty string, alone and next to
+// others; term lists that start with it (C18, C01, C08).
+func (g *Gen) EmptyFieldName() *Case {
+	c := &Case{Family: "empty_field_name"}
+	r := g.R
+	var b Batch
+	n := 3 + r.Intn(5)
+	for d := 0; d < n; d++ {
+		doc := Doc{idField(fmt.Sprintf("e%d", d), true)}
+		if d%2 == 0 {
+			doc = append(doc, Field{N: "", Len: 2, St: d%4 == 0, Val: []byte("v"), Terms: []Term{{T: []byte("mat"), Freq: 1}, {T: []byte(fmt.Sprintf("t%d", d)), Freq: 1, Locs: []Loc{{Pos: 1, Start: 0, End_: 1}}}}})
+		}
+		if d%3 != 1 {
+			doc = append(doc, Field{N: "body", Len: 1, Terms: []Term{{T: []byte("mat"), Freq: 1}}})
+		}
+		b = append(b, doc)
+	}
+	ops := []Op{{Code: OpBuild, CM: g.ChunkMode(), Batch: b}, {Code: OpObsAll, Slot: 0},
+		{Code: OpDocsMatching, Slot: 0, Terms: []FT{{"", []byte("mat")}}},
+		{Code: OpDocsMatching, Slot: 0, Terms: []FT{{"", []byte("t0")}, {"", []byte("t2")}, {"body", []byte("mat")}}},
+		{Code: OpDocsMatching, Slot: 0, Terms: []FT{{"body", []byte("mat")}, {"", []byte("mat")}}},
+		{Code: OpReload, Slot: 0, Kind: r.Intn(2)},
+		{Code: OpDocsMatching, Slot: 1, Terms: []FT{{"", []byte("mat")}, {"nosuchfield", []byte("a")}, {"", []byte("t0")}}},
+		{Code: OpMerge, CM: g.ChunkMode(), Ins: []MergeIn{{Slot: 0, Drops: []uint64{1}}}},
+		{Code: OpObsAll, Slot: 2},
+		{Code: OpDocsMatching, Slot: 2, Terms: []FT{{"", []byte("mat")}}},
+		{Code: OpStats, Slot: 2, F: ""}}
+	c.Ops = ops
+	c.tag("merge")
+	c.tag("merged")
+	c.tag("loaded")
+	c.tag("empty_field_name")
+	return c
+}
